@@ -8,6 +8,7 @@ import (
 	"fmt"
 	"os"
 	"path"
+	"path/filepath"
 	"sort"
 	"strings"
 	"time"
@@ -55,6 +56,28 @@ func roRun(prop, tier string, c Case, w *Worker) (res Result) {
 	_ = json.Unmarshal(c.P, &p)
 	cfg := p.Cfg
 	res.setAdd("configs", cfg.String())
+	// 0. a read-only instance over nothing at all must not create a tape
+	if c.Seed%7 == 0 {
+		ed := w.NewDir("c15empty")
+		ecfg := cfg
+		ecfg.ReadOnly, ecfg.NoWriteBE = true, p.NoWBE
+		if er, err := NewRig(ed, ecfg); err == nil {
+			ierr := er.Init()
+			er.LocksSettled()
+			if _, serr := os.Stat(er.Drive); serr == nil {
+				res.violate("c15|empty-drive-created", fmt.Sprintf("[%s] Initialize of a read-only filesystem over a missing drive (err=%v) created the drive file", ecfg, ierr))
+				er.Close()
+				return
+			}
+			if ierr == nil {
+				res.violate("c15|empty-drive-initialized", fmt.Sprintf("[%s] Initialize of a read-only filesystem over a missing drive succeeded", ecfg))
+				er.Close()
+				return
+			}
+			er.Close()
+			res.count("empty_drive_opens_checked", 1)
+		}
+	}
 	// 1. populate with a writable instance
 	src := w.NewDir("c15src")
 	wr, err := NewRig(src, cfg)
@@ -141,6 +164,10 @@ func roRun(prop, tier string, c Case, w *Worker) (res Result) {
 		return
 	}
 	rowsD := RowsDigest(rowsBefore)
+	// beyond the rows: the index file's bytes, the drive file's metadata and the set of files in the instance directory
+	dbBytes := fileDigest(ro.DB)
+	driveStat := statLine(ro.Drive)
+	filesBefore := listFiles(rod)
 	ttree, err := WalkTree(tw.FS, true)
 	if err != nil {
 		res.Verdict, res.Msg = "inconclusive", "twin walk: "+err.Error()
@@ -172,6 +199,18 @@ func roRun(prop, tier string, c Case, w *Worker) (res Result) {
 			viol("index-changed|"+what, "the index contents changed (%d rows before, %d after)", len(rowsBefore), len(rows))
 			return false
 		}
+		if d := fileDigest(ro.DB); d != dbBytes {
+			viol("index-file-changed|"+what, "the index database file changed although no row did: %s -> %s", dbBytes, d)
+			return false
+		}
+		if d := statLine(ro.Drive); d != driveStat {
+			viol("drive-metadata-changed|"+what, "the drive file's metadata changed: %s -> %s", driveStat, d)
+			return false
+		}
+		if fl := listFiles(rod); fl != filesBefore {
+			viol("files-created|"+what, "files appeared or disappeared next to the tape: before [%s] after [%s]", filesBefore, fl)
+			return false
+		}
 		return true
 	}
 	mustPerm := func(what string, err error) bool {
@@ -189,6 +228,14 @@ func roRun(prop, tier string, c Case, w *Worker) (res Result) {
 	kinds := map[string]bool{}
 	for i := 0; i < p.Calls; i++ {
 		pa := pickPath()
+		switch r.Intn(12) { // unusual argument shapes
+		case 0:
+			pa = "/"
+		case 1:
+			pa = pa + "/"
+		case 2:
+			pa = strings.TrimPrefix(pa, "/")
+		}
 		k := []string{"create", "mkdir", "mkdirall", "remove", "removeall", "rename", "chmod", "chown", "chtimes", "symlink", "openfile", "openfile", "openfile", "stat", "stat", "list", "read", "read", "lstat", "readlink"}[r.Intn(20)]
 		kinds[k] = true
 		var okc bool
@@ -240,7 +287,10 @@ func roRun(prop, tier string, c Case, w *Worker) (res Result) {
 			calls = append(calls, fmt.Sprintf("OpenFile(%q,%s)", pa, flagStr(fl)))
 			res.count("openfile_calls", 1)
 			h, err := ro.FS.OpenFile(pa, fl, 0o644)
-			_, exists := ttree[pa]
+			_, exists := ttree[cleanAbs(pa)]
+			if cleanAbs(pa) == "/" {
+				exists = true
+			}
 			if err == nil && !exists {
 				viol("openfile-created", "OpenFile(%s) of a missing path succeeded on a read-only filesystem", flagStr(fl))
 				h.Close()
@@ -248,7 +298,7 @@ func roRun(prop, tier string, c Case, w *Worker) (res Result) {
 			}
 			okc = true
 			if err == nil {
-				isDir := ttree[pa].Kind == "d"
+				isDir := ttree[cleanAbs(pa)].Kind == "d" || cleanAbs(pa) == "/"
 				// every write-ish call on a handle obtained from a read-only filesystem must fail with a permission error (or is-a-directory)
 				for _, hk := range []string{"Write", "WriteAt", "WriteString", "Truncate"} {
 					var e error
@@ -308,7 +358,7 @@ func roRun(prop, tier string, c Case, w *Worker) (res Result) {
 		case "read":
 			calls = append(calls, fmt.Sprintf("ReadAll(%q)", pa))
 			okc = true
-			if ttree[pa].Kind == "d" {
+			if ttree[cleanAbs(pa)].Kind == "d" || cleanAbs(pa) == "/" {
 				break
 			}
 			a, ea := ReadAllFile(ro.FS, pa)
@@ -372,6 +422,28 @@ func roRun(prop, tier string, c Case, w *Worker) (res Result) {
 	res.Detail = nil
 	res.Sample = map[string]any{"cfg": cfg.String(), "variant": variant, "entries": len(ttree), "calls": calls}
 	return
+}
+
+func cleanAbs(p string) string { return path.Clean("/" + strings.TrimPrefix(p, "/")) }
+
+func statLine(p string) string {
+	st, err := os.Stat(p)
+	if err != nil {
+		return "!" + err.Error()
+	}
+	return fmt.Sprintf("%d/%v/%d", st.Size(), st.Mode(), st.ModTime().UnixNano())
+}
+
+func listFiles(dir string) string {
+	var out []string
+	_ = filepath.Walk(dir, func(p string, info os.FileInfo, err error) error {
+		if err == nil {
+			out = append(out, strings.TrimPrefix(p, dir))
+		}
+		return nil
+	})
+	sort.Strings(out)
+	return strings.Join(out, " ")
 }
 
 func lastOf(s []string) string {
